@@ -59,6 +59,7 @@ def random_product(ctx, allow_no=True, general_in_no=False):
     ops = []
     mode = rng.choice(["balanced", "balanced", "balanced", "random"])
     used = []
+    forced = []
     if mode == "balanced":
         for _ in range(npairs):
             side = rng.choice(["occ", "virt"])
@@ -70,6 +71,13 @@ def random_product(ctx, allow_no=True, general_in_no=False):
                 if rng.random() < 0.8:
                     used.append(i)
                 return i
+            if rng.random() < 0.2:
+                # occupation-number like pair: the same index (mostly a general one) on a creator and an annihilator
+                i = rng.choice(pools[rng.choice(["g", "g", "o" if side == "occ" else "v"])])
+                ops.append(Fd(i))
+                ops.append(F(i))
+                forced.append(i)
+                continue
             ops.append(Fd(pick()))
             ops.append(F(pick()))
         rng.shuffle(ops)
@@ -108,6 +116,7 @@ def random_product(ctx, allow_no=True, general_in_no=False):
     tensors = []
     free_pool = list(op_idx)
     rng.shuffle(free_pool)
+    free_pool += forced          # popped first: an index that sits on two operators must be carried by a tensor
     same = rng.random() < 0.4
     k0 = rng.choice(["V", "f"])
     for _ in range(rng.randint(0, 4)):
